@@ -205,6 +205,10 @@ static ares_status_t parse_nameserver_uri(ares_buf_t     *buf,
   char          hoststr[256];
   size_t        addrlen;
 
+  /* The caller's struct is not initialized, members not set below (the
+   * link-local interface when there is no zone) must not be left as-is */
+  memset(sconfig, 0, sizeof(*sconfig));
+
   status = ares_uri_parse_buf(&uri, buf);
   if (status != ARES_SUCCESS) {
     return status;
